@@ -243,7 +243,13 @@ def aggregate(name, distinct, values, star_count, sep=" "):
             return None
         nums = [numval(v) for v in vals]
         if any(n is None for n in nums):
-            return "ANY"  # ordering of mixed kinds is not fixed: not checked
+            if all(v[0] == "I" for v in vals):
+                # IRIs are ordered as their strings (15.1)
+                return ("I", (min if name == "MIN" else max)(v[1] for v in vals))
+            if all(v[0] == "L" and v[2] in (None, XS) and v[3] is None for v in vals):
+                return ("ONEOF", [v for v in vals if v[1] == (min if name == "MIN" else max)(x[1] for x in vals)])
+            # mixed kinds / datatypes: the order is only partly fixed; whatever it is, the extremum is one of the group's own values
+            return ("ONEOF", vals)
         best = vals[0]
         for v in vals[1:]:
             if (float(numval(v)[1]) < float(numval(best)[1])) == (name == "MIN") and float(numval(v)[1]) != float(numval(best)[1]):
@@ -457,7 +463,7 @@ def check_distinct_order(pname, gname, vars_, keys, limit):
 AGGS = [("COUNT*", False, None), ("COUNT", False, "v"), ("COUNT", True, "v"), ("COUNT", False, "w"), ("SUM", False, "v"), ("SUM", True, "v"),
         ("AVG", False, "v"), ("AVG", True, "v"), ("MIN", False, "v"), ("MAX", False, "v"), ("SAMPLE", False, "v"), ("SAMPLE", False, "w"),
         ("GROUP_CONCAT", False, "w"), ("GROUP_CONCAT", True, "w"), ("GROUP_CONCAT;", False, "w")]
-GROUPINGS = ["implicit", "s", "s v", "STR(?v)", "s STR(?w)", "isIRI(?v)"]  # the last three: grouping keys that are un-aliased function calls
+GROUPINGS = ["implicit", "s", "s v", "STR(?v)", "s STR(?w)", "isIRI(?v)", "(STR(?v))", "s (isIRI(?w))"]  # the last three: grouping keys that are un-aliased function calls
 
 
 def agg_text(name, distinct, var):
@@ -477,12 +483,13 @@ def check_aggregate(pname, gname, grouping, agg, wrap, having):
         return "skip"
     gkeys = [] if grouping == "implicit" else grouping.split()          # each key: a variable name or FUNC(?var)
     gvars = [k for k in gkeys if "(" not in k]                          # only variable keys can be projected
-    if any((k if "(" not in k else k[k.index("?") + 1:-1]) not in pvars for k in gkeys):
+    if any((k if "(" not in k else k[k.index("?") + 1:].rstrip(")")) not in pvars for k in gkeys):
         return "skip"
 
     def key_of(m, k):
         if "(" not in k:
             return m.get(k)
+        k = k[1:-1] if k.startswith("(") else k                      # a bracketted, unnamed expression
         fn, v = k[:k.index("(")], m.get(k[k.index("?") + 1:-1])
         if v is None:
             return None                                                # error -> the key is unbound for this solution
